@@ -153,7 +153,7 @@ def run(ctx):
             for be, part in runs:
                 res = engine(ctx, binary, "TestCrashEnum",
                              {"consts": c, "behaviours": part, "newState": new_state[sc], "backends": [be],
-                              "pruneBatch": pb, "plain": False}, timeout=3000)
+                              "pruneBatch": pb, "plain": False, "switches": faithful}, timeout=3000)
                 ctx.absorb(res, "crash", "TestCrashEnum")
                 vlib.log("engine TestCrashEnum %s pb=%d %s: %d sequences, %.0fs" % (sc, pb, be, len(part), res["_wall_s"]))
     ctx.coverage["behaviours_conformance"] = total_conf
